@@ -372,6 +372,24 @@ Definition id_alphabet_ok (ver id : bytes) : bool :=
 Definition edit_sections : list bytes :=
   [bs "set_unsigned"; bs "set_unsigned_field"; bs "sign"; bs "redact"; bs "fresh_redact"].
 
+(* after Redact(): no unsigned, neither through Unsigned() nor in JSON() *)
+Definition unhexd0 (c : N) : N := if c <? 58 then c - 48 else c - 55.
+Fixpoint unpct0 (s : bytes) : bytes :=
+  match s with
+  | 37 :: a :: b :: r => (unhexd0 a * 16 + unhexd0 b) :: unpct0 r
+  | c :: r => c :: unpct0 r
+  | [] => []
+  end.
+Definition redacted_has_no_unsigned (sec : list bytes) : bool :=
+  field_is (bs "unsigned") [] sec && field_is (bs "redacted") (bs "true") sec &&
+  match field (bs "json") sec with
+  | Some t => match parse_json (unpct0 t) with
+              | Some e => negb (mem_bytes (bs "unsigned") (jkeys e))
+              | None => false
+              end
+  | None => false
+  end.
+
 Fixpoint check_edit_sections (ver : bytes) (v12 : bool) (built : list bytes) (out : bytes) (names : list bytes) : option bytes :=
   match names with
   | [] => None
@@ -385,6 +403,8 @@ Fixpoint check_edit_sections (ver : bytes) (v12 : bool) (built : list bytes) (ou
       else if v12 && negb (same_field (bs "room") built s) then Some (n ++ bs ":room")
       else if v12 && negb (same_field (bs "auth") built s) then Some (n ++ bs ":auth")
       else if negb (field_is (bs "pure") (bs "ok") s) then Some (n ++ bs ":an accessor changed the event")
+      else if (bytes_eqb n (bs "redact") || bytes_eqb n (bs "fresh_redact")) && negb (redacted_has_no_unsigned s)
+      then Some (n ++ bs ":the redacted event still carries unsigned")
       else check_edit_sections ver v12 built out r
   end.
 
